@@ -268,21 +268,57 @@ def cache_keys(ctx, rule='A8'):
 
 def pickle_caches(ctx, rule='A2'):
     fn = ctx.fn(f'{SEL}.get_best_assignment_manager')
+    unit = unit_functions(ctx.prog, fn)
+    helpers = {h.name: h for h in unit[1:]}
     paths = [s for s in walk_fn(fn) if isinstance(s, ast.Assign) and norm(s.targets[0]) == 'cache_path']
-    uses = [c for c in calls(fn) if any(isinstance(a, ast.Name) and a.id == 'cache_path' for a in c.args)]
-    kinds = sorted({call_name(c) for c in uses})
-    ok = len(paths) == 1 and {'exists', 'open'} <= set(kinds) and \
-        sum(1 for c in uses if call_name(c) == 'open') == 2
+
+    def uses_of(f, name, depth=2):
+        """(call name, call) for every call in f (and, through private helpers handed the name, in them) that takes
+        the variable as an argument; for open() the mode is appended."""
+        out = []
+        for c in calls(f):
+            args = list(c.args) + [k.value for k in c.keywords]
+            if not any(isinstance(a_, ast.Name) and a_.id == name for a_ in args):
+                continue
+            h = helpers.get(call_name(c))
+            if h is not None and depth > 0:
+                hp = [q for q in h.params if q not in ('self', 'cls')] if isinstance(c.func, ast.Attribute) else h.params
+                for q, a_ in zip(hp, c.args):
+                    if isinstance(a_, ast.Name) and a_.id == name:
+                        out += uses_of(h, q, depth - 1)
+            else:
+                out.append((call_name(c), c))
+        return out
+    uses = uses_of(fn, 'cache_path')
+    kinds = sorted({k for k, _ in uses})
+    ok = len(paths) == 1 and {'exists', 'open'} <= set(kinds) and sum(1 for k, _ in uses if k == 'open') == 2
     ctx.ob(rule, fkey(fn, rule, 'one-path-variable'), ok, fn.where,
-           'the selection cache checks, loads and writes one path variable that is assigned once', f'{kinds}')
-    ok = bool(paths) and '_get_cache_key()' in norm(paths[0].value)
+           'the selection cache checks, loads and writes one path variable that is assigned once (directly or in '
+           'private helpers it is handed to)', f'{kinds}')
+
+    def ret_text(e, depth=2):
+        # text of the expression, with calls to private helpers replaced by what they return
+        t = norm(e)
+        if isinstance(e, ast.Call) and call_name(e) in helpers and depth > 0:
+            t += ' ' + ' '.join(ret_text(r.value, depth - 1) for r in returns_of(helpers[call_name(e)])
+                                if r.value is not None)
+        return t
+    ok = bool(paths) and '_get_cache_key()' in ret_text(paths[0].value)
     ctx.ob(rule, fkey(fn, rule, 'path-from-key'), ok, fn.where, 'the path is derived from the settings key', '')
-    dumps = [c for c in calls(fn, 'dump')]
-    ok = bool(dumps) and norm(dumps[0].args[0]) == 'assignment_manager'
+    # what is dumped (here, or by a helper that is handed the object) is what is returned
+    dumped = [norm(c.args[0]) for c in calls(fn, 'dump') if c.args]
+    for c in calls(fn):
+        h = helpers.get(call_name(c))
+        if h is None:
+            continue
+        hp = [q for q in h.params if q not in ('self', 'cls')] if isinstance(c.func, ast.Attribute) else h.params
+        sub = {q: norm(a_) for q, a_ in zip(hp, c.args)}
+        dumped += [sub.get(norm(d.args[0])) for d in calls(h, 'dump') if d.args]
     rets = returns_of(fn)
-    ok = ok and norm(rets[-1].value) == 'assignment_manager'
+    ok = bool(dumped) and all(d is not None and d == norm(rets[-1].value) for d in dumped)
     ctx.ob(rule, fkey(fn, rule, 'dumps-what-it-returns'), ok, fn.where,
-           'what is written to the cache is the object that is returned (a later cache hit equals this result)', '')
+           'what is written to the cache is the object that is returned (a later cache hit equals this result)',
+           f'dumped {dumped}, returned {norm(rets[-1].value)}')
     cfg = build_cfg(fn)
     loads = guards.call_nodes(cfg, 'load')
     if loads:
@@ -291,10 +327,16 @@ def pickle_caches(ctx, rule='A2'):
                              set(), 'cache-flag-respected', 'the cache is read only when cache=True')
     # restore of the time-limit override: every attribute overridden for limit_time=False is restored from a
     # value saved before the override
-    cfgf = build_cfg(fn)
+    cands = [u for u in unit if any(True for _ in calls(u, '_get_best_assignment_manager')) and
+             any(isinstance(st, ast.Assign) and any(is_self_attr(x) for t_ in st.targets for x in
+                                                    (t_.elts if isinstance(t_, ast.Tuple) else [t_]))
+                 for st in walk_fn(u))]
+    lf = cands[0] if cands else fn
+    ctx.touch(lf)
+    cfgf = build_cfg(lf)
     call_nodes_ = guards.call_nodes(cfgf, '_get_best_assignment_manager')
     saved = {}
-    for st in walk_fn(fn):
+    for st in walk_fn(lf):
         if isinstance(st, ast.Assign) and isinstance(st.targets[0], ast.Tuple) and isinstance(st.value, ast.Tuple):
             for tg, v in zip(st.targets[0].elts, st.value.elts):
                 if isinstance(tg, ast.Name) and is_self_attr(v):
